@@ -11,6 +11,8 @@ Kinds of request:
     register-for-one       the same through the register limit (quantumError)
     room-for-none / register-for-none   the first cmd_new is refused: nothing was created
     md-rotation            measure-directly with a rotation: AssertionError after both temporaries exist (oracle only)
+    not-adjacent           refused by the topology check before anything is created (C12); here for the host's bookkeeping: the
+                           physical id reserved for the pair is released again
     ok                     the request succeeds (the model must agree there too; measure-directly: oracle only)
 Every message is handled to completion before the next one is sent, so a scenario is a deterministic list of records:
 what the host replied, every native call (tap), the dump of all nodes, the handling host's bookkeeping, the receive deques.
@@ -24,7 +26,7 @@ import qasm_epr as EP
 import qasm_run as QR
 import qasm_sync as Q
 
-FAILING = ("receiver-full", "room-for-one", "register-for-one", "room-for-none", "register-for-none", "md-rotation")
+FAILING = ("receiver-full", "room-for-one", "register-for-one", "room-for-none", "register-for-none", "md-rotation", "not-adjacent")
 
 
 def node_counts(net):
@@ -57,7 +59,7 @@ def make(kind, typ="K", pre=0, recv_local=0, coins=(1, 0), n_nodes=2, pb=False, 
         cr = pre
     caps = [(cq, cr), (rq, rr)] + [(3, big)] * (n_nodes - 2)
     return {"kind": kind, "type": typ, "pre": pre, "recv_local": recv_local, "coins": [int(c) for c in coins], "caps": caps,
-            "pb": pb, "after": bool(after and pre)}
+            "pb": pb, "after": bool(after and pre), "topology": {"N0": [], "N1": ["N0"]} if kind == "not-adjacent" else None}
 
 
 def fixed_scenarios():
@@ -68,13 +70,13 @@ def fixed_scenarios():
             make("receiver-full", pre=2, coins=(0, 1)), make("receiver-full", pre=1, recv_local=1, coins=(1, 1)),
             make("md-rotation", typ="M", pre=1), make("register-for-one", pre=1), make("room-for-none", pre=1),
             make("register-for-none", pre=0), make("receiver-full", pre=1, pb=True), make("room-for-one", pre=1, pb=True),
-            make("ok", pre=1), make("ok", typ="M", pre=1), make("ok", pre=0, n_nodes=3), make("ok", pre=2, pb=True)]
+            make("not-adjacent", pre=1), make("ok", pre=1), make("ok", typ="M", pre=1), make("ok", pre=0, n_nodes=3), make("ok", pre=2, pb=True)]
     return out
 
 
 def random_scenario(rng):
     kind = rng.choice(["receiver-full", "receiver-full", "room-for-one", "room-for-one", "register-for-one", "room-for-none",
-                       "register-for-none", "md-rotation", "ok", "ok"])
+                       "register-for-none", "md-rotation", "not-adjacent", "ok", "ok"])
     typ = "M" if kind == "md-rotation" else rng.choice(["K", "K", "M"])
     if kind == "receiver-full":
         typ = "K"                        # a measure-directly request hands no qubit over
@@ -95,6 +97,8 @@ def run(env, sc):
     else:
         net = N.make_network(env, names, [c[0] for c in caps], [c[1] for c in caps])
     Q.make_hosts(env, net, pb_local=sc["pb"])
+    for h in net.hosts:
+        h.factory.topology = sc.get("topology")
     pre, typ, kind = sc["pre"], sc["type"], sc["kind"]
     claims = kind == "ok" and typ == "K"
     recv_app = sc["recv_local"] > 0 or kind == "ok"
@@ -174,8 +178,8 @@ def run(env, sc):
 # ------------------------------------------------------------------------------------------------------------------------------
 def describe(sc):
     req = "create_keep(1)" if sc["type"] == "K" else ("create_measure(1, rotations_local=(1,0,0))" if sc["kind"] == "md-rotation" else "create_measure(1)")
-    return ("nodes (qubits, registers) %r%s; N0: init, %d local qubit(s), %s with N1 on sockets (0,0)%s, StopApp%s"
-            % (sc["caps"], " over real PB" if sc["pb"] else "", sc["pre"], req,
+    return ("nodes (qubits, registers) %r%s%s; N0: init, %d local qubit(s), %s with N1 on sockets (0,0)%s, StopApp%s"
+            % (sc["caps"], " over real PB" if sc["pb"] else "", ", topology %r" % sc["topology"] if sc.get("topology") else "", sc["pre"], req,
                ", H + measure on the first local qubit" if sc["after"] else "",
                "; N1 holds %d local qubit(s)" % sc["recv_local"] if sc["recv_local"] else ""))
 
@@ -229,7 +233,7 @@ def judge(run_):
 
 def replay_obj(run_):
     sc = run_["sc"]
-    return {"scenario": {k: sc[k] for k in ("kind", "type", "pre", "recv_local", "coins", "caps", "pb", "after")}, "program": describe(sc),
+    return {"scenario": {k: sc[k] for k in ("kind", "type", "pre", "recv_local", "coins", "caps", "pb", "after", "topology")}, "program": describe(sc),
             "messages": [{"node": r["host"], "role": r["role"], "message": r["msg"], "replies": r["replies"],
                           "native_calls": [(c["method"], c["hid"], c["status"], str(c["value"])) for c in r["calls"]],
                           "counts_after": r["counts"], "qubitList_ids": sorted(r["hostdump"]["qlist"]), "used_ids": r["hostdump"]["used"]}
@@ -244,7 +248,7 @@ def modelled(sc):
     a refused cmd_new"""
     if sc["type"] == "K":
         return True
-    return sc["kind"] in ("room-for-one", "register-for-one", "room-for-none", "register-for-none")
+    return sc["kind"] in ("room-for-one", "register-for-one", "room-for-none", "register-for-none", "not-adjacent")
 
 
 def acts_of(run_, r):
@@ -263,7 +267,7 @@ def acts_of(run_, r):
             out += ["AInstr %d (QAlloc 0 %d)" % (h, a), "AInstr %d (QInit 0 %d f)" % (h, a)]
         return out
     if role == "create":
-        return ["ACreate 0 0 %d %s 1 t 0 %s" % (sc["pre"], known, common.cblist(sc["coins"]))]
+        return ["ACreate 0 0 %d %s 1 %s 0 %s" % (sc["pre"], known, "f" if sc["kind"] == "not-adjacent" else "t", common.cblist(sc["coins"]))]
     if role == "claim":
         return ["ARecv 1 0 %d 0" % sc["recv_local"]]
     if role == "after":          # the SDK's measure() frees the qubit afterwards
